@@ -19,8 +19,8 @@ static const char *STAT_NAMES[ST_N] = { "runs", "ops", "backend_messages", "faul
 enum { K_SLOTS, K_PER, K_FILL, K_N };
 enum { UI_BIND = 0, UI_CLEAR, UI_CLEARSUB, UI_GAIN, UI_OFFSET, HOST_SET, HOST_PAIR, MIDI_CC, MIDI_NRPN };
 
-static const char *BINDABLE[] = {"/pi", "/pi_neg", "/pf", "/pf_log", "/pf_unit", "/pt", "/po_b", "/af1", "/sub/sf", "/subs1/si", "/psub/st", "/ai2", "/odd/vol", "/odd/pc_r", "/odd/cut_i", "/odd/pi_big", "/odd/pi_imax", "/odd/a_sub_tree_with_a_name_that_is_much_longer_than_anyone_would_type_by_hand_0123456789/a_parameter_with_a_name_that_is_just_as_unreasonably_long_as_its_parent_s"};
-static const int NBIND = 18;
+static const char *BINDABLE[] = {"/pi", "/pi_neg", "/pf", "/pf_log", "/pf_unit", "/pt", "/po_b", "/af1", "/sub/sf", "/subs1/si", "/psub/st", "/ai2", "/odd/vol", "/odd/pc_r", "/odd/cut_i", "/odd/pi_big", "/odd/pi_imax", "/odd/pi_narrow", "/odd/a_sub_tree_with_a_name_that_is_much_longer_than_anyone_would_type_by_hand_0123456789/a_parameter_with_a_name_that_is_just_as_unreasonably_long_as_its_parent_s"};
+static const int NBIND = 19;
 
 struct MSub { bool used = false; int leaf = -1; char type = 0; double mn = 0, mx = 0; bool log = false; float gain = 100, offset = 0; };
 struct MSlot { std::vector<MSub> subs; int cc = -1, nrpn = -1; };
